@@ -4,6 +4,8 @@ CONSTANTS
   Relays = {}
   NoMc = {}
   Types = {65}
+  Lens = {1}
+  FragLen = 1
   MaxWrites = 1
   MaxLoss = 1
   Concurrent = FALSE
